@@ -859,6 +859,8 @@ fn write_evidence(d: &Driver, path: &Path, violations: i64, replays: &[Value], k
             "perturbations_injected": {
                 "counts": a.perturb,
                 "steered_runs_that_deviated_from_natural": a.steered_effective,
+                "explicit_call_history_runs_by_number_of_earlier_calls": a.pre_len,
+                "explicit_call_history_earlier_calls_by_kind": a.pre_kind,
                 "not_present_in_code_under_test": ["message loss/reorder/duplication", "partitions", "crash/restart", "clock skew", "disk errors / short writes", "allocation failure"],
             },
             "decisions_total": a.decisions_total,
